@@ -1702,6 +1702,21 @@ impl platform::Platform for Elf {
             secnames::COMMENT_SECTION_NAME,
             output_section_id::COMMENT,
         ));
+
+        // The input files' own symbol / string / relocation / group tables are never input
+        // sections in the linker-script sense. Without these rules they'd be treated as orphan
+        // sections and, with --no-gc-sections, copied to the output.
+        for name in [
+            secnames::STRTAB_SECTION_NAME,
+            secnames::SYMTAB_SECTION_NAME,
+            secnames::SHSTRTAB_SECTION_NAME,
+            secnames::GROUP_SECTION_NAME,
+        ] {
+            rule_builder.add_section_rule(SectionRule::exact(name, SectionRuleOutcome::Discard));
+        }
+        for name in [secnames::RELA_SECTION_NAME, secnames::CREL_SECTION_NAME] {
+            rule_builder.add_section_rule(SectionRule::prefix(name, SectionRuleOutcome::Discard));
+        }
     }
 
     fn init_section_priority(name: &[u8]) -> Option<u16> {
